@@ -43,6 +43,10 @@ def main():
         subprocess.run(["git", "-C", REPO, "worktree", "add", "-q", "--detach", wt, "HEAD"], check=True)
         meta = {"name": name, "property": pid, "kind": "behaviour-preserving variant (claimed by an independent sub-agent)",
                 "repo_head": subprocess.check_output(["git", "-C", REPO, "log", "--format=%h", "-1"], text=True).strip(), "checks": {}}
+        mp = os.path.join(d, "meta.json")
+        if os.path.exists(mp):
+            # results of checks not re-run now are kept (each entry is the latest run of that check)
+            meta["checks"] = json.load(open(mp)).get("checks", {})
         try:
             p = subprocess.run(["git", "apply", os.path.join(d, "patch.diff")], cwd=wt, capture_output=True, text=True)
             meta["patch_applies"] = p.returncode == 0
@@ -70,7 +74,7 @@ def main():
             subprocess.run(["git", "-C", REPO, "worktree", "remove", "--force", wt])
             shutil.rmtree(wt, ignore_errors=True)
         json.dump(meta, open(os.path.join(d, "meta.json"), "w"), indent=1)
-        summary = " ".join("%s=%s" % (c, v["exit"]) for c, v in meta["checks"].items())
+        summary = " ".join("%s=%s" % (c, meta["checks"][c]["exit"]) for c in checks if c in meta["checks"])
         print("%-16s applies=%s builds=%s suite=%s  %s" % (name, meta.get("patch_applies"), meta.get("builds"), meta.get("baseline_suite_passes"), summary), flush=True)
         for c, v in meta["checks"].items():
             if v["exit"] == 1:
